@@ -9,6 +9,7 @@
 From Coq Require Import NArith List Bool.
 From Coq Require Import ZArith.
 From Verif Require Import Model.Retriever Proofs.RetrieverProofs.
+From Verif Require Model.RetrieverQueue Proofs.RetrieverQueueProofs.
 From Verif Require Check.GoLiteRetrieveAttempt Proofs.GoLiteRetrieveRefine.
 Import ListNotations.
 Open Scope N_scope.
@@ -433,6 +434,67 @@ Example ex_lost_verifier_would_drop_genuine_headers :
   map (fun r => (i_height r, i_result r, handed DCopyAll wit_cfg (pda_of VFallback 1 hx_da) r, i_next r))
       (iterations wit_cfg (da_of DCopyAll (pda_of VFallback 1 hx_da)) [ISignal]) =
   [ (7, PNil, [PEHeader 3 7; PEData 5 7 [3; 0]], 8); (8, PFuture, [], 8) ].
+Proof. vm_compute. reflexivity. Qed.
+
+(* ---- the hand-off to the sync loop through the BOUNDED event channels (Model/RetrieverQueue.v) --------------------
+   headerInCh / dataInCh have a capacity ([capH], [capD]: 10000 each in the code, any numbers here); a DA height is
+   given by the runs of genuine unseen headers / data among its blobs in DA order; the consumer (SyncLoop) is an
+   INPUT: [rs] = any sequence of rounds (away for any time, then takes up to a headers and up to b data - none
+   included).  The hand-off is the code's: it waits for room (HWait; its ctx is the loop's, done at shutdown
+   only).  [final_q] = the state after the wake-up and the rounds, the loop quiescent. *)
+Theorem C09_handoff_never_drops_full : forall (capH capD boot : N) (heights : list (list RetrieverQueue.qrun_t)) (rs : list RetrieverQueue.qround),
+  let s := RetrieverQueueProofs.final_q capH capD boot heights rs in
+  RetrieverQueue.handed_h s + RetrieverQueue.count true (RetrieverQueue.remaining s) = RetrieverQueue.count true (concat heights) /\
+  RetrieverQueue.handed_d s + RetrieverQueue.count false (RetrieverQueue.remaining s) = RetrieverQueue.count false (concat heights) /\
+  RetrieverQueue.q_lost_h s = 0 /\ RetrieverQueue.q_lost_d s = 0 /\
+  RetrieverQueue.q_lh s <= capH /\ RetrieverQueue.q_ld s <= capD.
+Proof. exact RetrieverQueueProofs.handoff_never_drops. Qed.
+Print Assumptions C09_handoff_never_drops_full.
+
+(* however long the consumer stays away: the cursor is past a height only when every genuine event of it and of
+   all heights before it has been handed over (taken by the consumer or waiting in the channel) *)
+Theorem C09_handoff_cursor_full : forall (capH capD boot : N) (heights : list (list RetrieverQueue.qrun_t)) (rs : list RetrieverQueue.qround),
+  let s := RetrieverQueueProofs.final_q capH capD boot heights rs in
+  exists k, RetrieverQueue.q_cursor s = boot + N.of_nat k /\ (k <= length heights)%nat /\
+    RetrieverQueue.count true (concat (firstn k heights)) <= RetrieverQueue.handed_h s /\
+    RetrieverQueue.count false (concat (firstn k heights)) <= RetrieverQueue.handed_d s.
+Proof. exact RetrieverQueueProofs.handoff_cursor. Qed.
+Print Assumptions C09_handoff_cursor_full.
+
+(* the scan waits inside a height only in front of a FULL channel, with an event in hand *)
+Theorem C09_handoff_waits_only_when_full_full : forall (capH capD boot : N) (heights : list (list RetrieverQueue.qrun_t)) (rs : list RetrieverQueue.qround),
+  RetrieverQueueProofs.Blocked capH capD (RetrieverQueueProofs.final_q capH capD boot heights rs).
+Proof. exact RetrieverQueueProofs.handoff_waits_only_when_full. Qed.
+Print Assumptions C09_handoff_waits_only_when_full_full.
+
+(* and when nothing is left to hand over the cursor is past the last height *)
+Theorem C09_handoff_done_cursor_full : forall (capH capD boot : N) (heights : list (list RetrieverQueue.qrun_t)) (rs : list RetrieverQueue.qround),
+  let s := RetrieverQueueProofs.final_q capH capD boot heights rs in
+  heights <> [] -> RetrieverQueue.q_pend s = None -> RetrieverQueue.q_rest s = [] ->
+  RetrieverQueue.q_cursor s = boot + N.of_nat (length heights).
+Proof. exact RetrieverQueueProofs.handoff_done_cursor. Qed.
+Print Assumptions C09_handoff_done_cursor_full.
+
+Definition hq_heights : list (list RetrieverQueue.qrun_t) := [[(true, 3); (false, 1)]; [(true, 1); (false, 2)]].
+Definition hq_sched : list RetrieverQueue.qround := [(40000, 0, 0); (1000, 1, 0); (1000, 5, 5); (1000, 5, 5)].
+Definition hq_proj (x : list RetrieverQueue.qobs_t * RetrieverQueue.qstate) :=
+  (fst x, (RetrieverQueue.q_cursor (snd x), RetrieverQueue.q_th (snd x), RetrieverQueue.q_td (snd x),
+           RetrieverQueue.q_lost_h (snd x), RetrieverQueue.q_lost_d (snd x))).
+
+(* channels of 2 slots, heights 7 and 8 with 4 headers and 3 data, a consumer that is away for 40 s first: the scan
+   waits at height 7 with headerInCh full; in the end all 4 + 3 events were taken and the cursor is 9 *)
+Example ex_handoff_waits_for_slow_consumer :
+  hq_proj (RetrieverQueue.qrun RetrieverQueue.HWait 2 2 (RetrieverQueue.qstart 2 2 7 hq_heights) hq_sched) =
+  ([(7, 2, 0); (7, 2, 0); (8, 2, 1); (9, 1, 2)], (9, 4, 3, 0, 0)).
+Proof. vm_compute. reflexivity. Qed.
+
+(* NOT the code: were the context of the hand-off's select one with a deadline of 30 s per DA height, the same
+   consumer would find the cursor at 8 after its 40 s, one header and one data of height 7 never handed over and
+   never fetched again - so the statements above are not vacuous.  That the real hand-off is HWait is what the
+   correspondence check ties to block/retriever.go (back-pressure cases with a scheduled consumer). *)
+Example ex_deadline_handoff_would_drop_genuine_events :
+  hq_proj (RetrieverQueue.qrun (RetrieverQueue.HDeadline 30000) 2 2 (RetrieverQueue.qstart 2 2 7 hq_heights) hq_sched) =
+  ([(8, 2, 0); (8, 2, 0); (9, 2, 2); (9, 0, 0)], (9, 3, 2, 1, 1)).
 Proof. vm_compute. reflexivity. Qed.
 
 (* ---- the retry loop TRANSLATED FROM THE SOURCE (Check/GoLiteRetrieveAttempt.v, regenerated on every run) ---------
